@@ -39,7 +39,12 @@ fn busy_at(v: &View, a: usize, seq: u64) -> bool {
 // ------------------------------------------------------------------------------------------
 // C01 — accepted exactly once, rejected never
 // ------------------------------------------------------------------------------------------
-pub fn c01(v: &View) -> Vec<Violation> {
+/// the parts of C01 that are sound under true concurrency: (a), (b) and (c) restricted to stop()
+pub fn c01_core(v: &View) -> Vec<Violation> {
+    c01_abc(v, false)
+}
+
+fn c01_abc(v: &View, use_drop: bool) -> Vec<Violation> {
     let mut out = vec![];
     // (a) at most once
     for (mid, hs) in &v.handlers {
@@ -71,7 +76,7 @@ pub fn c01(v: &View) -> Vec<Violation> {
             continue;
         }
         let stop_call = first_stop_call(v, a).unwrap_or(u64::MAX);
-        let zero = av.first_zero().unwrap_or(u64::MAX);
+        let zero = if use_drop { av.first_zero().unwrap_or(u64::MAX) } else { u64::MAX };
         let limit = stop_call.min(zero);
         let end = v.phase_seq[2].unwrap_or(u64::MAX);
         for o in v.ops.iter().filter(|o| o.a == a) {
@@ -106,6 +111,11 @@ pub fn c01(v: &View) -> Vec<Violation> {
             }
         }
     }
+    out
+}
+
+pub fn c01(v: &View) -> Vec<Violation> {
+    let mut out = c01_abc(v, true);
     // (d) at quiescence a live idle actor has no client operation pending on it
     if let Some(h) = v.phase_seq[0] {
         for o in v.ops.iter().filter(|o| o.b_seq < h && o.a < v.actors.len()) {
@@ -300,7 +310,8 @@ pub fn c02_labels(v: &View, l: &mut Vec<&'static str>) {
 // ------------------------------------------------------------------------------------------
 // C03 — reply integrity; ask never hangs on a dead actor
 // ------------------------------------------------------------------------------------------
-pub fn c03(v: &View) -> Vec<Violation> {
+/// C03 (a): reply integrity (sound under any interleaving)
+pub fn c03_replies(v: &View) -> Vec<Violation> {
     let mut out = vec![];
     for o in v.sends() {
         let (how, mid, ty) = o.send().unwrap();
@@ -369,6 +380,11 @@ pub fn c03(v: &View) -> Vec<Violation> {
             }
         }
     }
+    out
+}
+
+pub fn c03(v: &View) -> Vec<Violation> {
+    let mut out = c03_replies(v);
     // (b) no operation pending on an actor whose JoinHandle has resolved
     if let (Some(h1), Some(h2)) = (v.phase_seq[0], v.phase_seq[1]) {
         for o in v.ops.iter().filter(|o| o.a < v.actors.len() && o.b_seq < h1) {
